@@ -40,6 +40,10 @@ CONTROL = ('pause', 'play', 'kill', 'resume', 'fail', 'cancel', 'status')
 class ProgError(Exception):
     """Tagged exception raised by generated user code."""
 
+    def __len__(self):
+        # an exception type of an application that carries a (here: empty) collection: the instance is falsy
+        return 0 if self.args and self.args[0] == 'falsy' else 1
+
     def __eq__(self, other):
         return type(other) is type(self) and other.args == self.args
 
